@@ -73,6 +73,8 @@ func main() {
 		opLive(r, *n, *tier)
 	case "alias":
 		opAlias(r, *n, *tier)
+	case "pppipe":
+		opPPPipe(r, *n, *tier)
 	case "replay":
 		opReplay()
 	default:
